@@ -164,8 +164,7 @@ func (w *webTransport) send(packets []*packet.Packet) {
 					}
 					return
 				}
-				return
-
+				continue
 			}
 		}
 
